@@ -2,6 +2,7 @@ package core
 
 import (
 	"fmt"
+	"runtime"
 	"runtime/debug"
 )
 
@@ -13,6 +14,8 @@ type Sched struct {
 	back  chan *Task
 	cur   *Task
 	Steps int
+	// Foreign counts yield points reached by goroutines that are not tasks of this scheduler.
+	Foreign int
 	// Pick decides who runs after a yield / finish.  runnable holds task ids; cur is the
 	// id of the task that just yielded (-1 if it finished).
 	Pick func(step int, cur int, runnable []int, site string) int
@@ -32,6 +35,22 @@ type Task struct {
 	f        func()
 	s        *Sched
 	Panicked string
+	gid      uint64
+}
+
+// goid returns the current goroutine's id (parsed from the stack header; used only at scheduling points).
+func goid() uint64 {
+	var buf [64]byte
+	n := runtime.Stack(buf[:], false)
+	// "goroutine 123 [running]:"
+	var id uint64
+	for _, c := range buf[len("goroutine "):n] {
+		if c < '0' || c > '9' {
+			break
+		}
+		id = id*10 + uint64(c-'0')
+	}
+	return id
 }
 
 // NewSched returns a scheduler whose choices come from pick.
@@ -49,6 +68,13 @@ func (s *Sched) Go(name string, f func()) *Task {
 func (s *Sched) Yield(site string) {
 	t := s.cur
 	if t == nil {
+		return
+	}
+	if goid() != t.gid {
+		// a goroutine the code under test started itself reached a yield point: it is not one of the
+		// scheduler's tasks and holds no baton; let it run on (counted, the run is no longer exactly
+		// replayable — reported in the evidence, never as a verdict)
+		s.Foreign++
 		return
 	}
 	t.site = site
@@ -69,6 +95,7 @@ func (s *Sched) Run() {
 	for _, t := range s.tasks {
 		t := t
 		go func() {
+			t.gid = goid()
 			<-t.resume
 			defer func() {
 				if p := recover(); p != nil {
